@@ -1019,7 +1019,7 @@ class AnyBetween(__Class):
         '''
         for c in (start, end):
             if isinstance(c, (str, _pre.Pregex)):
-                if len(str(c).replace("\\", "", 1)) > 1:
+                if len(str(c).replace("\\", "", 1) if isinstance(c, _pre.Pregex) else c) > 1:
                     message = f"Argument \"{c}\" is neither a string nor a token."
                     raise _ex.InvalidArgumentTypeException(message)
             else:
@@ -1066,7 +1066,7 @@ class AnyButBetween(__Class):
         '''
         for c in (start, end):
             if isinstance(c, (str, _pre.Pregex)):
-                if len(str(c).replace("\\", "", 1)) > 1: 
+                if len(str(c).replace("\\", "", 1) if isinstance(c, _pre.Pregex) else c) > 1: 
                     message = f"Argument \"{c}\" is neither a string nor a token."
                     raise _ex.InvalidArgumentTypeException(message)
             else:
@@ -1112,7 +1112,7 @@ class AnyFrom(__Class):
             raise _ex.NotEnoughArgumentsException(message)
         for c in chars:
             if isinstance(c, (str, _pre.Pregex)):
-                if len(str(c).replace("\\", "", 1)) > 1: 
+                if len(str(c).replace("\\", "", 1) if isinstance(c, _pre.Pregex) else c) > 1: 
                     message = f"Argument \"{c}\" is neither a string nor a token."
                     raise _ex.InvalidArgumentTypeException(message)
             else:
@@ -1155,7 +1155,7 @@ class AnyButFrom(__Class):
             raise _ex.NotEnoughArgumentsException(message)
         for c in chars:
             if isinstance(c, (str, _pre.Pregex)):
-                if len(str(c).replace("\\", "", 1)) > 1: 
+                if len(str(c).replace("\\", "", 1) if isinstance(c, _pre.Pregex) else c) > 1: 
                     message = f"Argument \"{c}\" is neither a string nor a token."
                     raise _ex.InvalidArgumentTypeException(message)
             else:
